@@ -105,6 +105,10 @@ func NewIPPool(network string, gateway string) (*IPPool, error) {
 
 // Allocate allocates an IP for a session
 func (p *IPPool) Allocate(sessionID string) net.IP {
+	// A session asking again (e.g. a retransmitted authentication request) keeps its address
+	if ip, ok := p.allocated[sessionID]; ok {
+		return ip
+	}
 	if len(p.available) == 0 {
 		return nil
 	}
